@@ -114,6 +114,10 @@ def displayed(report, source, tree, atok, skips):
         needle = f'data-detail="{detail}"'
         return any(needle in t and lo <= a and b <= hi and b > a for t, a, b in sp)
 
+    parents = {}
+    for a in ast.walk(tree):
+        for c in ast.iter_child_nodes(a):
+            parents[id(c)] = a
     for a in ast.walk(tree):
         if not hasattr(a, "lineno"):
             continue
@@ -125,6 +129,18 @@ def displayed(report, source, tree, atok, skips):
         r = audits(a, "rules")
         t = audits(a, "types")
         if isinstance(r, RuleInAncestor):
+            # "covered by a prohibited ancestor": when that ancestor is an expression or a simple statement (whose highlight is its
+            # own text, or its first target), the highlight must really enclose this node's text; the body of a prohibited
+            # compound statement is shown as it is, under the highlighted header
+            b = parents.get(id(a))
+            while b is not None and not isinstance(audits(b, "rules"), SyntaxRestriction):
+                b = parents.get(id(b))
+            simple = b is not None and not hasattr(b, "body") and not isinstance(b, (ast.excepthandler, ast.match_case, ast.arguments, ast.arg,
+                                                                                  ast.keyword, ast.comprehension, ast.withitem, ast.alias))
+            if simple and not isinstance(a, (ast.expr_context, ast.operator, ast.unaryop, ast.cmpop, ast.boolop)) and hi > lo \
+                    and source[lo:hi].strip() and not any("rules-SyntaxRestriction" in t and x <= lo and hi <= y for t, x, y in sp):
+                v.append(("restriction-not-shown", f"{type(a).__name__} at line {l0} col {c0} was not admitted (a prohibited construct "
+                                                   f"encloses it) but no displayed syntax restriction encloses its text"))
             continue
         if isinstance(r, SyntaxRestriction):
             if not isinstance(a, (ast.expr_context, ast.operator, ast.unaryop, ast.cmpop, ast.boolop)) and hi > lo:
@@ -132,6 +148,10 @@ def displayed(report, source, tree, atok, skips):
                     v.append(("restriction-not-shown", f"{type(a).__name__} at line {l0}: its syntax restriction is not displayed"))
             continue
         if t is None or isinstance(t, TypeInParent):
+            continue
+        if isinstance(a, ast.Return) and isinstance(t, TypeError) and hi > lo:
+            if not has("TypeError: " + str(t), lo, hi):
+                v.append(("type-not-shown", f"Return at line {l0}: the type error the checker found ({t}) is not displayed at the statement"))
             continue
         if isinstance(a, (ast.Assign, ast.AnnAssign, ast.Call, ast.BoolOp, ast.BinOp, ast.Compare, ast.UnaryOp, ast.Constant, ast.Name,
                           ast.List, ast.Subscript, ast.ListComp)):
